@@ -169,6 +169,19 @@ def parse_cbmc_json(out):
     return results, status, msgs, data
 
 
+def _load_shapes():
+    p = os.path.join(VERIF, 'contracts', 'loop_shapes.json')
+    try:
+        return json.load(open(p))
+    except Exception:
+        return {}
+
+
+# loop nesting shape (kind, depth in pre-order) of every function with loop contracts, recorded on the tree the contracts were
+# written for (tools/loopshapes.py); a different shape means the loop contracts do not describe the code any more
+LOOP_SHAPES = _load_shapes()
+
+
 def contract_loop_macros(cname):
     """number of LOOP_<cname>_<k> macros defined in contracts/*.h"""
     ks = set()
@@ -230,7 +243,8 @@ def run_group(g, trace=False, workroot=None):
     if g.loops:
         for e in res.extraction:
             want = contract_loop_macros(e['c_name'])
-            if want and want != e['loops']:
+            shp = LOOP_SHAPES.get(e['c_name'])
+            if want and (want != e['loops'] or (shp is not None and shp != e['loop_shape'])):
                 # the loop structure of the function changed: the loop contracts no longer describe this code, so no obligation
                 # generated from them says anything about the property.  Undecided -- unless the native input search on the real
                 # code exhibits a violation (check.py), in which case that is reported.
